@@ -101,6 +101,14 @@ CLAIMS = {
         'note': 'as C02/C03/C01 (same models and ties); the correspondence compares tallies of the real crate across all 24 suit permutations and player orders and with the model\'s tallies.',
         'design_ref': 'DESIGN.md §6 C11',
     },
+    'C05': {
+        'text': 'C05_token: every well-formed token (all shapes: RR, RR+, RR-SS, XYs/o in either order, XYs/o+, XYs/o-XZs/o, two different cards in either order), with or without a weight of the grammar, '
+                'parses and expands to exactly the list of combos Spec.denote gives (standard notation, written independently of the crate), each once, each with the token\'s weight (1 when omitted); '
+                'C05_list: for any list of such tokens joined by commas with spaces anywhere, lookup of every combo is the weight of the LAST token denoting it; C05_empty: the empty / all-space string is the empty range.',
+        'note': 'Lean kernel + standard axioms; assumption: "" is not a number for f32::from_str (named hypothesis); hand-written model of the parser tied by the correspondence (all 3,809 well-formed shapes x weight literals, '
+                'expansion order compared with the model, expansion set with Spec.denote); regex crate modelled by recognisers whose pattern literals are compared with the source on every run (C09_regex_literals).',
+        'design_ref': 'DESIGN.md §6 C05',
+    },
     'C06': {
         'text': 'C06_range: for every range whose combos are pairs of distinct cards with weights in the domain, showRange succeeds and parseRange of that text yields a range with the same lookup for '
                 'every combo - however the combos group into complete rank pairs, runs of adjacent rank pairs with equal weight, or leftovers; C06_token: the text of every token satisfying the parser\'s '
